@@ -103,6 +103,7 @@ def golden_env(tier):
 
 
 PROPS = {
+    "C05": lambda *a: __import__("langgen").check("c05", "C05", "exploration", ["expected tags, kinds and values come from the harness' own schema description (which also renders the .spec text), never from the generator", "service code is compile-checked only"])(*a),
     "C15": lang_check("c15", "exploration", ["the printer/dumper of syntax trees in the harness is the reference for 'what the source says'"]),
     "C18": sched_check("model_checking", ["writer programs are interleaved at operation granularity and at pool Get/Put (writers are single-goroutine objects; the shared objects are the pools)",
                                           "unsynchronised accesses are looked for by a separate free-running -race pass over loopback TCP (auxiliary, sampled by wall-clock; the deciding part is the schedule exploration)"],
